@@ -36,6 +36,7 @@ func (r *R) Fork() *R               { return NewR(r.U64()) }
 
 var memberNames = []string{
 	"a", "b", "c", "d", "foo", "bar", "baz", "", "a/b", "m~n", "~1", "<x>", "a&b", "é", "\u2028", "k\"q", "back\\slash",
+	"metadata", "metadatas", "hostname", "hostnames", "abcdefg", "abcdefgh", "abcdefghi", "abcdefghijklmnop", "abcdefghijklmnopq",
 	"0", "1", "-", "00", "-1", " ", "key with space", "\U0001F600", "null", "\t", "%s", "100%", "a.b", "$ref", "#",
 }
 
@@ -204,6 +205,14 @@ func (g *G) Object(depth int) string {
 			sb.WriteString("null")
 		} else {
 			sb.WriteString(g.Value(depth - 1))
+		}
+		if g.R.P(40) && len(k) > 2 {
+			// a sibling whose name extends this one (sort orders that compare prefixes only)
+			sib := k[:len(k)-1] + g.R.Pick([]string{"s", "0", "_", "a"}) + `"`
+			if !seen[sib] {
+				seen[sib] = true
+				sb.WriteString("," + sib + ":" + g.Scalar())
+			}
 		}
 	}
 	sb.WriteString(g.ws() + "}")
